@@ -132,6 +132,21 @@ def run_case(case, ctx):
                    detail=dict(program=prog), exc_type=type(exc).__name__, method=method, n=n,
                    complex_valued=case['cplx'], operators=sorted(X.operators(tree)))
         return
+    if case['step']['kind'] == 'default' and n >= 1:
+        # "default step generators": an object built without step options uses the documented default sequence for its
+        # (x, method, n, order) - the closed-form model of C10 - whatever was done to other objects before
+        from vf.props import c10
+        want = c10.model('min' if method in ('complex', 'multicomplex') else 'max', {}, np.asarray(res['x'], dtype=float), method, n,
+                         int(res['dobj'].method_order))[0]      # (the generator is handed the order the rule delivers, see C06)
+        got = res['obs'].get('steps') or []
+        ctx.count('default_step_sequence_asserted')
+        same = len(got) == len(want) and all(
+            np.allclose(np.asarray(g, dtype=float), np.asarray(w, dtype=float), rtol=1e-12, atol=0) for g, w in zip(got, want))
+        if not same:
+            ctx.reject('default_steps_differ_from_the_documented_default_sequence',
+                       observed=[np.ravel(g)[0] for g in got[:4]] + [len(got)], expected=[np.ravel(w)[0] for w in want[:4]] + [len(want)],
+                       detail=dict(program=prog), method=method, n=n, order=order)
+            return
     val = res['value']
     if val.shape != tuple(case['shape']):
         ctx.reject('shape', observed=list(val.shape), expected=case['shape'])
